@@ -1,0 +1,84 @@
+// This file is part of yash, an extended POSIX shell.
+//
+// Verification hooks (compiled only with the `verif-hooks` feature).
+
+//! Preemption points for external runtime monitors
+//!
+//! This module is compiled only when the `verif-hooks` feature is enabled.
+//! It lets a monitor that drives [`VirtualSystem`](crate::system::virtual::VirtualSystem)
+//! processes decide, at selected system calls, that the calling virtual process
+//! is descheduled in favour of other virtual processes, the way a real kernel
+//! may preempt a process at any system call.
+//!
+//! Without a callback installed with [`set_callback`], every function in this
+//! module is a no-op and the behaviour of the crate is unchanged.
+
+use std::cell::{Cell, RefCell};
+use std::future::poll_fn;
+use std::task::Poll;
+
+/// Callback deciding whether to preempt at a site (`true` = preempt)
+pub type Callback = Box<dyn FnMut(&'static str) -> bool>;
+
+thread_local! {
+    static CALLBACK: RefCell<Option<Callback>> = const { RefCell::new(None) };
+    static YIELD_REQUESTED: Cell<bool> = const { Cell::new(false) };
+}
+
+/// Installs (or removes) the preemption callback for the current thread.
+pub fn set_callback(callback: Option<Callback>) {
+    CALLBACK.with(|c| *c.borrow_mut() = callback);
+    YIELD_REQUESTED.with(|y| y.set(false));
+}
+
+fn ask(site: &'static str) -> bool {
+    CALLBACK.with(|c| match c.try_borrow_mut() {
+        Ok(mut guard) => match guard.as_mut() {
+            Some(callback) => callback(site),
+            None => false,
+        },
+        Err(_) => false,
+    })
+}
+
+/// Returns true (and clears the request) if a preemption point has asked the
+/// run loop to yield to the executor.
+pub fn take_yield_request() -> bool {
+    YIELD_REQUESTED.with(|y| y.replace(false))
+}
+
+/// Preemption point
+///
+/// If the installed callback returns true for `site`, this future sets the
+/// yield request and returns `Pending` exactly once.
+pub async fn preempt_point(site: &'static str) {
+    if !ask(site) {
+        return;
+    }
+    let mut first = true;
+    poll_fn(|_| {
+        if first {
+            first = false;
+            YIELD_REQUESTED.with(|y| y.set(true));
+            Poll::Pending
+        } else {
+            Poll::Ready(())
+        }
+    })
+    .await
+}
+
+/// Yields to the executor once, asking to be polled again immediately.
+pub async fn yield_to_executor() {
+    let mut first = true;
+    poll_fn(|context| {
+        if first {
+            first = false;
+            context.waker().wake_by_ref();
+            Poll::Pending
+        } else {
+            Poll::Ready(())
+        }
+    })
+    .await
+}
